@@ -34,7 +34,8 @@ type Script struct {
 	serial   int
 	Reopens  int
 	Renders  int
-	NoLists  bool // leave out calls that touch the process-wide registries
+	Extra    []*document.Document // further documents the script produced (batch renders); the case saves and inspects them too
+	NoLists  bool                 // leave out calls that touch the process-wide registries
 	NoReopen bool
 	Weights  map[string]int // optional weight overrides per op name
 }
@@ -838,6 +839,19 @@ func init() {
 			if s.NoReopen {
 				return
 			}
+			if s.R.Bool() {
+				// placeholders of every kind, each in a paragraph of its own
+				s.Doc.AddParagraph("{{x}} and {{name}}")
+				if s.R.Bool() {
+					s.Doc.AddParagraph("{{#image pic}}")
+				}
+				if s.R.Chance(1, 3) {
+					s.Doc.AddParagraph("{{#image pic}}") // the same picture twice in one document
+				}
+				if s.R.Chance(1, 3) {
+					s.Doc.AddParagraph("{{#each xs}}{{name}} {{/each}}")
+				}
+			}
 			eng := document.NewTemplateEngine()
 			if _, err := eng.LoadTemplateFromDocument("t", s.Doc); err != nil {
 				return
@@ -852,17 +866,31 @@ func init() {
 				im := s.nextImage()
 				data.SetImageFromData("pic", im.Data, s.imageConfig())
 			}
-			var d2 *document.Document
-			var err error
-			if s.R.Bool() {
-				d2, err = eng.RenderTemplateToDocument("t", data)
-			} else {
-				d2, err = eng.RenderToDocument("t", data)
+			// a batch: the same data object serves several renders (one variable changed in between); the script goes on
+			// with the first document, the others are kept for the case to save and inspect
+			var first *document.Document
+			for k, n := 0, []int{1, 1, 2, 3}[s.R.Intn(4)]; k < n; k++ {
+				var d2 *document.Document
+				var err error
+				if s.R.Bool() {
+					d2, err = eng.RenderTemplateToDocument("t", data)
+				} else {
+					d2, err = eng.RenderToDocument("t", data)
+				}
+				if err != nil || d2 == nil || d2.Body == nil {
+					break
+				}
+				if first == nil {
+					first = d2
+				} else if len(s.Extra) < 6 {
+					s.Extra = append(s.Extra, d2)
+				}
+				data.SetVariable("x", fmt.Sprintf("batch %d", k+1))
 			}
-			if err != nil || d2 == nil || d2.Body == nil {
+			if first == nil {
 				return
 			}
-			s.adopt(d2)
+			s.adopt(first)
 			s.Renders++
 		}},
 	}
